@@ -105,8 +105,15 @@ def check_selection(sel, ctx):
     if len(sel) <= ctx.extra.get("apply_maxlen", 6):
         idnt = small_curve()
         expect = requirements_met(sel, D)
+        # three routes into the same function: positional, deprecated keyword, deprecated class
+        route = len(sel) % 3
         try:
-            preproc.apply(idnt, list(sel), options={})
+            if route == 0:
+                preproc.apply(idnt, list(sel), options={})
+            elif route == 1:
+                preproc.apply(idnt, options={}, preproc_names=list(sel))
+            else:
+                preproc.IndentationPreprocessor.apply(idnt, identifiers=list(sel), options={})
             got = True
             msg = ""
         except ValueError as exc:
